@@ -1155,11 +1155,13 @@ static int _yr_re_emit(
       bookmark_1 = yr_arena_get_current_offset(
           emit_context->arena, YR_RE_CODE_SECTION);
 
+      // If neither the prolog nor the repeat section were generated (i.e:
+      // e{0,1}) the code for this node starts at the split instruction.
       FAIL_ON_ERROR(_yr_emit_split(
           emit_context,
           re_node->greedy ? RE_OPCODE_SPLIT_A : RE_OPCODE_SPLIT_B,
           0,
-          NULL,
+          emit_prolog || emit_repeat ? NULL : &instruction_ref,
           &split_offset_ref));
     }
 
@@ -1169,7 +1171,7 @@ static int _yr_re_emit(
           emit_context,
           re_node->children_head,
           emit_prolog ? flags | EMIT_DONT_SET_FORWARDS_CODE : flags,
-          emit_prolog || emit_repeat ? NULL : &instruction_ref));
+          emit_prolog || emit_repeat || emit_split ? NULL : &instruction_ref));
     }
 
     if (emit_split)
